@@ -76,6 +76,14 @@ def plan(tier, seed):
 # ---------------------------------------------------------------------------
 # one execution
 
+class Item(tuple):
+    """a channel item with a unique id; every first item of a sender is FALSY (like an all-default protobuf
+    message, 0 or ""), which a correct channel must deliver like any other item"""
+
+    def __bool__(self):
+        return self[1] != 0
+
+
 def run_schedule(cfg, chooser: Chooser):
     """returns dict(events, tasks: name -> outcome, director stats)"""
     from betterproto.grpc.util.async_channel import AsyncChannel, ChannelClosed, ChannelDone
@@ -97,7 +105,7 @@ def run_schedule(cfg, chooser: Chooser):
             try:
                 if cfg["send_from"]:
                     await d.gate(who)
-                    items = [(i, k) for k in range(cfg["items"])]
+                    items = [Item((i, k)) for k in range(cfg["items"])]
                     d.log("call", who, "send_from", items)
                     try:
                         await ch.send_from(items)
@@ -109,7 +117,7 @@ def run_schedule(cfg, chooser: Chooser):
                         await d.gate(who)
                         d.log("call", who, "send", (i, k))
                         try:
-                            await ch.send((i, k))
+                            await ch.send(Item((i, k)))
                             d.log("ret", who, "send", "ok", (i, k))
                         except ChannelClosed:
                             d.log("ret", who, "send", "ChannelClosed", (i, k))
